@@ -411,6 +411,31 @@ def run(ctx):
         else:
             r.bad("clear", "matches_candidate_into does not clear the output vector", fn=f)
 
+    with ctx.rule("C12.ESCAPE", "globset::escape neutralises every character the glob parser dispatches on (writer/reader agreement)",
+                  floor=1, kind="PARITY") as r:
+        def char_switch(fn_):
+            best = []
+            for b_ in fn_.blocks:
+                t_ = b_["term"]
+                if t_["k"] == "switch" and len(t_.get("targets", [])) >= 3 and all(isinstance(v, int) and 32 < v < 127 for v, _ in t_["targets"]):
+                    if len(t_["targets"]) > len(best):
+                        best = [v for v, _ in t_["targets"]]
+            return set(best)
+        pf = facts.fn(G + "::glob::Parser::parse")
+        ef = facts.fn(G + "::escape")
+        special = char_switch(pf)
+        bracketed = char_switch(ef)
+        # `,` only means something between braces, and both braces are neutralised
+        need = special - {ord(",")}
+        if not special or not bracketed:
+            r.bad("escape|specials", "anchor-missing: the character dispatch of Parser::parse (%d) / escape (%d)" % (len(special), len(bracketed)), fn=ef)
+        elif need <= bracketed:
+            r.ok("escape|specials", "escape brackets %s; the parser dispatches on %s" % (
+                "".join(sorted(map(chr, bracketed))), "".join(sorted(map(chr, special)))), fn=ef)
+        else:
+            r.bad("escape|specials", "globset::escape leaves `%s` as it is although Parser::parse gives it a meaning: escape(\"a\\\\b\") "
+                  "is a glob that matches `ab` and not the text it was made from" % "".join(sorted(map(chr, need - bracketed))),
+                  fn=ef, construct="escape")
     with ctx.rule("C12.CLASSRANGES", "every range of a class token is written into the regex as parsed (the class arm loops over "
                   "Token::Class::ranges itself)", floor=1, kind="FLOW") as r:
         from . import c05
